@@ -190,6 +190,26 @@ def tree_same(a, b, path=()):
   from collections.abc import Mapping
   from flax.core import FrozenDict
   from vf.snap import leaf_equal
+  if path == ():
+    # the container walk below goes through the public read API ([] re-wraps nested dicts of a FrozenDict): the pytree structure
+    # JAX sees and what unfreeze() returns are part of "same structure and container types" as well
+    import jax
+    from flax.core import unfreeze
+    try:
+      sa, sb = jax.tree_util.tree_structure(a), jax.tree_util.tree_structure(b)
+    except Exception:  # noqa: BLE001 - not a pytree (opaque leaves)
+      sa = sb = None
+    if sa != sb:
+      return path, 'pytree structure', str(sa)[:200], str(sb)[:200]
+
+    def frozen_inside(x):
+      if isinstance(x, FrozenDict):
+        return True
+      if isinstance(x, dict):
+        return any(frozen_inside(v) for v in x.values())
+      return False
+    if isinstance(b, FrozenDict) and isinstance(a, FrozenDict) and frozen_inside(unfreeze(b)) and not frozen_inside(unfreeze(a)):
+      return path, 'container', 'unfreeze(original) is plain', 'unfreeze(restored) still holds a FrozenDict'
   if isinstance(a, (dict, FrozenDict)) or isinstance(b, (dict, FrozenDict)):
     if type(a) is not type(b) or list(a.keys()) != list(b.keys()):
       return path, 'container', type(a).__name__, type(b).__name__
